@@ -15,3 +15,7 @@ func (m *NfdMgmtThread) Vf19Drain() []NfdMgmtCmd {
 		}
 	}
 }
+
+// Vf19QueueCap / Vf19QueueLen: capacity and current length of the command queue (burst histories of the harness).
+func (m *NfdMgmtThread) Vf19QueueCap() int { return cap(m.channel) }
+func (m *NfdMgmtThread) Vf19QueueLen() int { return len(m.channel) }
